@@ -174,6 +174,15 @@ def gen_thread_ops(rng, n, classes, allow_facade):
                 op["blocksize"] = 0          # a construction that is refused
             slots.append(name)
             ops.append(op)
+        elif r < 0.52:
+            # equal inputs (the very same argument objects) twice -> equal bytes
+            name = rng.choice(classes) if rng.random() < 0.6 else rng.choice(["ExtendedCopy4", "ExtendedCopy5", "PersistentReserveOut", "ModeSelect6"])
+            ops.append(dict(op="construct_twice", **gen_ctor(rng, name)))
+        elif r < 0.57:
+            # another class decodes the bytes of a CDB this thread built (e.g. classes sharing opcode 9Eh/A3h/5Eh)
+            ops.append({"op": "decode_foreign", "slot": rng.randrange(len(slots)), "cls": rng.choice(classes + ["ReadCapacity16", "GetLBAStatus", "ReportPriority", "ReportTargetPortGroups"]),
+                        "tw": None})
+            ops[-1]["tw"] = gen_ctor(rng, ops[-1]["cls"])
         elif r < 0.6:
             ops.append({"op": "decode_own", "slot": rng.randrange(len(slots))})
         elif r < 0.72:
@@ -249,11 +258,14 @@ def _opcode(name):
     return getattr(opc, spec)
 
 
-def construct(spec, blocksize=512):
+def construct(spec, blocksize=512, prebuilt=None):
     name = spec["cls"]
     cls = _cls(name)
-    args = F.real_args(spec["args"])
-    kw = F.real_args(spec["kw"])
+    if prebuilt is not None:
+        args, kw = prebuilt
+    else:
+        args = F.real_args(spec["args"])
+        kw = F.real_args(spec["kw"])
     op = _opcode(name)
     if name == "PersistentReserveIn":
         return cls(op, args[0], **kw)
@@ -317,6 +329,20 @@ def do_op(ctx, op, reference):
             ctx.slot_specs.append(op)
             ctx.snaps.append(snap(cmd))
             return ctx.snaps[-1]
+        if kind == "construct_twice":
+            pre = (F.real_args(op["args"]), F.real_args(op["kw"]))
+            first = snap(construct(op, prebuilt=pre))
+            second = snap(construct(op, prebuilt=pre))
+            return [first, second]
+        if kind == "decode_foreign":
+            if op["slot"] >= len(ctx.slots) or ctx.slots[op["slot"]] is None:
+                return "no-object"
+            if reference:
+                try:
+                    construct(op["tw"])
+                except Exception:  # noqa
+                    pass
+            return canon(_cls(op["cls"]).unmarshall_cdb(bytes(ctx.slots[op["slot"]].cdb)))
         if kind in ("decode_own", "encode_own", "recheck", "repeat_encode"):
             if op["slot"] >= len(ctx.slots) or ctx.slots[op["slot"]] is None:
                 return "no-object"
@@ -406,7 +432,7 @@ def execute(prog):
         for i, op in lst:
             want, have = ref.get(str(i)), got.get(str(i))
             if want != have:
-                if op["op"] in ("construct", "decode", "unmarshall_datain", "roundtrip_datain"):
+                if op["op"] in ("construct", "decode", "unmarshall_datain", "roundtrip_datain", "construct_twice", "decode_foreign"):
                     who = op["cls"]
                 elif "slot" in op and op["slot"] < len(ctxs[t].slot_specs):
                     who = ctxs[t].slot_specs[op["slot"]]["cls"]
@@ -415,6 +441,13 @@ def execute(prog):
                 V.append(dict(oracle="C09.depends-on-others", where="threads" if multi else "sequential", detail=op["op"],
                               expected="%s(%s) alone gives %s" % (op["op"], who, str(want)[:60]),
                               actual="%s under this history/schedule" % str(have)[:60]))
+        for i, op in lst:
+            if op["op"] == "construct_twice" and got.get(str(i), "").startswith("["):
+                a_, b_ = json.loads(got[str(i)])
+                if a_ != b_:
+                    V.append(dict(oracle="C09.repeat-differs", where="threads" if multi else "sequential", detail=op["cls"],
+                                  expected="constructing %s twice from the same argument objects gives the same CDB and buffers" % op["cls"],
+                                  actual="second construction differs"))
         final = [snap(c) if c is not None else None for c in ctxs[t].slots]
         if final != ctxs[t].snaps:
             V.append(dict(oracle="C09.object-changed", where="threads" if multi else "sequential", detail="held-object",
